@@ -36,7 +36,7 @@ Extraction "../ocaml/gen/hashfn_model.ml" Res.num_anchor
    FnvModel.qhashfnv1_32 FnvModel.qhashfnv1_64 MurmurModel.qhashmurmur3_32 MurmurModel.qhashmurmur3_128 Md5Model.qhashmd5 Md5Model.qhashmd5_file
    FnvSpec.fnv1_32 FnvSpec.fnv1_64 MurmurSpec.murmur3_x86_32 MurmurSpec.murmur3_x64_128 Md5Spec.md5 Word.le_bytes.
 Extraction "../ocaml/gen/vec_model.ml" Res.num_anchor
-   VectorModel.vnew VectorModel.vstep VectorSpec.vsstep.
+   VectorModel.vnew VectorModel.vstep VectorSpec.vsstep VectorModel.vaddself VectorSpec.vs_addself.
 Extraction "../ocaml/gen/seq_model.ml" Res.num_anchor
    ListModel.QL ListSpec.QLS WrapModel.QW WrapSpec.QWS.
 Extraction "../ocaml/gen/hashtbl_model.ml" Res.num_anchor
